@@ -394,6 +394,17 @@ package factory
 //@ loop 1 invariant [seen-non-lazy-collected] forall(i, int, implies(0 <= i && i < _done && !IsLazy(_range[i]), 0 <= NamesPos[i] && NamesPos[i] < len(names) && names[NamesPos[i]] == _range[i].Name()), _range[i], NamesPos[i])
 //@ ghost after call append #1: NamesSrc = store(NamesSrc, len(names) - 1, _idx)
 //@ ghost after call append #1: NamesPos = store(NamesPos, _idx, len(names) - 1)
+// snapshots taken right after the sort (the witnesses MetasPos / NamesPos / SortInv are overwritten by nested creations):
+// wit(n) = si0[np0[mp0[n]]] is where the name of a non-lazy definition sits in the sorted list
+//@ ghost local mp0 map[string]int
+//@ ghost local np0 map[int]int
+//@ ghost local si0 map[int]int
+//@ ghost after call sort2.Slice: mp0 = MetasPos
+//@ ghost after call sort2.Slice: np0 = NamesPos
+//@ ghost after call sort2.Slice: si0 = SortInv[backing(names)]
+//@ assert after call sort2.Slice: [distinct-after-sort] forall(a, int, forall(b, int, implies(0 <= a && a < len(names) && 0 <= b && b < len(names) && a != b, names[a] != names[b]), names[b]), names[a])
+//@ loop 2 invariant [names-sorted] forall(a, int, forall(b, int, implies(0 <= a && a < b && b < len(names), names[a] < names[b])))
+//@ loop 2 invariant [every-non-lazy-definition-listed] forall(n, string, implies(f.definitionRegistry.DefDom[n] && !IsLazy(f.definitionRegistry.Def[n]), 0 <= si0[np0[mp0[n]]] && si0[np0[mp0[n]]] < len(names) && names[si0[np0[mp0[n]]]] == n), f.definitionRegistry.DefDom[n])
 //@ loop 2 invariant [state] FInv(f) && !Reg(f).HasHole && forall(n, string, !Reg(f).IC[n]) && Failed == old(Failed) && Refreshed == old(Refreshed) && RanLen == old(RanLen) && CreatedLen == c0 + _done
 //@ loop 2 invariant [names-still-non-lazy-definitions] forall(k, int, implies(0 <= k && k < len(names), f.definitionRegistry.DefDom[names[k]] && !IsLazy(f.definitionRegistry.Def[names[k]])), names[k])
 //@ loop 2 invariant [created-so-far] forall(k, int, implies(0 <= k && k < _done, Reg(f).L1Dom[names[k]]), names[k])
